@@ -93,5 +93,11 @@ CHECKS = {
         "text": "(a) FaceModify values over all combinations of reset/underline/bold/italic/blink/strike with sampled colours plus every colour component value 0..255, the 192 attribute x underline faces, and characters of every UTF-8 length are written by TTYEncoder in true-colour mode and read back by TTYCommandDecoder; TLC requires identity on every expressible field, that the read-back modification rebuilds the face from a plain and from a busy face (spec semantics AND the real FaceModify::apply), and identical characters. (b) Seeded SGR histories from the expressible parameter table (';' and ':' colour forms, empty parameters, 4:0-4:5, 22/23/24/25/29) interleaved with multi-byte text are written through CellWrite::tty_writer whole, byte-wise, in 3-byte pieces and randomly cut; the cells' faces must equal those of VT.tla's SGR machine and be chunking-independent.",
         "note": "Known finding: SGR 39/49 cannot be expressed by FaceModify and are ignored by the writer.",
     },
+    "C04": {
+        "level": "exploration",
+        "technique": "TLA+ protocol printer (TtyProtocol.tla) generates byte strings together with the abstract events they denote for every report/key family and their concatenations; the real event decoder's output is projected onto the same abstract records and compared by TLC",
+        "text": "The printer spec writes out the naming tables (legacy CSI ~ codes with and without modifiers, CSI/SS3 letters, C0 and ESC-prefixed keys, kitty key codes incl. F13-F35 and modifier masks, all 256 SGR mouse button codes, DEC modes and statuses) and encodes CPR, size pairs, DECRPM, DA1, OSC 4/10/11 colours in #rrggbb and rgb:h/h/h with 1-4 digits and both terminators, XTGETTCAP, DECRPSS, kitty graphics responses, bracketed paste, SGR in ';' and ':' forms with several colours and mid-sequence resets, UTF-8 scalars at every length boundary, ambiguous ESC-prefixed keys followed by text that keeps a longer candidate alive, all ordered pairs of family representatives with and without text between them, and triples ending in ambiguous keys (about 4 400 vectors). Each is decoded whole, byte-wise and in 3-byte reads; TLC requires the projected events to equal the encoded ones.",
+        "note": "Bounded generation from the printer's value sets (coordinates {1,2,9,10,99,100,255,256,65535}); naming follows the library's documented table where terminals differ.",
+    },
 }
 
